@@ -4,10 +4,10 @@ PROP = {
  'technique': 'crash-point fault injection at hooks around every file/index write of the store (incl. torn writes) + recovery oracle in a fresh process',
  'rule': 'workload = pre-mined history of 10 main-chain blocks (transfers, contract code and storage, candidate registrations/votes, asset create/issue/transfer, multisig) with side '
          'blocks that get pruned and stabilisations after lags of 1..4 blocks, executed by a child process through InsertBlock / InsertConfirms with an fsynced ack line after every '
-         'returned call; 2 seeded plans (thorough 6). A crash-free run counts the hook events per site (tmp.data and bitcask data writes and fsyncs, tmp.data remove/create, every LevelDB put '
+         'returned call; 2 seeded plans (thorough 3). A crash-free run counts the hook events per site (tmp.data and bitcask data writes and fsyncs, tmp.data remove/create, every LevelDB put '
          'incl. the stable pointer, context.data head/body/fsync). Crash point = (site, k-th occurrence) with the child os.Exit-ing inside the hook, or torn = a prefix (5/30/70/99 %) of the '
-         'buffer is written and the process dies at the next hook. quick: first, second, quartiles, last two and two seeded occurrences per site (bitcask file sites thinned 1/12); thorough: '
-         'every occurrence of every site, plus second-level crashes during recovery for one point in seven. Recovery oracle in a fresh child: opens without panic/hang; stable height >= last '
+         'buffer is written and the process dies at the next hook. quick: first, second, quartiles, last two and two seeded occurrences per site (40 for the cursor put that follows a position put; bitcask file sites thinned 1/12); thorough: '
+         'every occurrence of the low-volume sites (queue file, stable pointer, candidate file, rotation) and ~400 seeded occurrences of each high-volume site (position and cursor puts, bitcask file writes), plus second-level crashes during recovery for one point in seven. Recovery oracle in a fresh child: opens without panic/hang; stable height >= last '
          'acked promotion and on the chain; heights 0..stable readable by height and hash with parent links; every account field of the universe (balance, code, storage, assets, equities, '
          'profile, votes, signers, roots, versions, raw records) equals the reference observation of exactly that block; version trie agrees with the accounts; candidate file knows every '
          'candidate; then the whole history is re-delivered: final head, stable and state equal the never-stopped node. distinct = (site class, phase, plan, occurrence class)',
